@@ -31,6 +31,7 @@ where
 
     let ghost w = old_ws@;
     let ghost t = txn.st().tasks;
+    proof { reveal(pairs_upto); assert(pairs_upto(w, new_ws@, 0)); }
     for elt in it_elt: &old_ws[1..]
         invariant
             txn.inv(), s0 == old(txn).st(), txn.st() == (TxnView { ws: txn.st().ws, ..s0 }),
@@ -44,6 +45,8 @@ where
             !renumber ==> new_ws@.len() == it_elt.index() + 1 && (forall|i: int| 1 <= i <= it_elt.index() ==>
                 #[trigger] new_ws@[i] == (if w[i] is Some && want(in_working_set, t, w[i]->Some_0) { w[i] } else { None::<Uuid> })),
             renumber ==> forall|i: int| 1 <= i < new_ws@.len() ==> (#[trigger] new_ws@[i]) is Some,
+            //@ob C15 rebuild.scan-keeps-the-old-relative-order
+            pairs_upto(w, new_ws@, it_elt.index() as int),
     {
         // Determine whether this item names a task that should still be in the working set.
         let ghost k = it_elt.index() as int;
@@ -134,6 +137,26 @@ where
             if keep is None && renumber { assert(new_ws@ == nw0); assert(forall|u: Uuid| ws_has(new_ws@, u) <==> kept_upto(in_working_set, w, t, k + 1, u)); }
             if keep is None && !renumber { assert(forall|u: Uuid| ws_has(new_ws@, u) <==> kept_upto(in_working_set, w, t, k + 1, u)); }
             assert(forall|u: Uuid| seen@.contains(u) <==> ws_has(new_ws@, u));
+            assert(pairs_upto(w, new_ws@, k + 1)) by {
+                reveal(pairs_upto);
+                assert forall|a: int, b: int| #![trigger new_ws@[a], new_ws@[b]] 0 <= a < b < new_ws@.len() && new_ws@[a] is Some && new_ws@[b] is Some
+                    implies exists|i: int, j: int| j <= k + 1 && #[trigger] pair_at(w, i, j, new_ws@[a], new_ws@[b]) by {
+                    if b < nw0.len() {
+                        assert(new_ws@[a] == nw0[a] && new_ws@[b] == nw0[b]);
+                        let (i, j) = choose|i: int, j: int| j <= k && #[trigger] pair_at(w, i, j, nw0[a], nw0[b]);
+                        assert(j <= k + 1 && pair_at(w, i, j, new_ws@[a], new_ws@[b]));
+                    } else {
+                        // the entry just pushed is w[k + 1]; every earlier entry was kept from a position <= k
+                        assert(new_ws@[a] == nw0[a]);
+                        let ua = nw0[a]->Some_0;
+                        assert(ws_has(nw0, ua));
+                        assert(kept_upto(in_working_set, w, t, k, ua));
+                        let i = choose|i: int| 1 <= i <= k && #[trigger] w[i] == Some(ua) && want(in_working_set, t, ua);
+                        assert(new_ws@[b] == w[k + 1]);
+                        assert(pair_at(w, i, k + 1, new_ws@[a], new_ws@[b]));
+                    }
+                }
+            }
         }
     }
 
@@ -154,6 +177,8 @@ where
             it_uuid.index() == it_uuid.seq().len() ==> (forall|u: Uuid| t.dom().contains(u) ==> #[trigger] processed.contains(u)),
             // phase-1 result is an untouched prefix, everything after it_elt is a newcomer
             nw1.len() <= new_ws@.len(), new_ws@.take(nw1.len() as int) == nw1, nw1.len() >= 1,
+            pairs_upto(w, nw1, w.len() - 1),
+            forall|u: Uuid| #![trigger ws_has(nw1, u)] ws_has(nw1, u) <==> kept_upto(in_working_set, w, t, w.len() - 1, u),
             forall|i: int| nw1.len() <= i < new_ws@.len() ==> (#[trigger] new_ws@[i]) is Some,
             forall|i: int, j: int| 0 <= i < j < new_ws@.len() && new_ws@[i] is Some ==> new_ws@[i] != new_ws@[j],
             forall|u: Uuid| #![trigger seen@.contains(u)] #![trigger ws_has(nw1, u)] seen@.contains(u) <==> ws_has(nw1, u),
@@ -236,6 +261,31 @@ where
             }
         }
         assert(n.take(nw1.len() as int)[0] == n[0]);
+        //@ob C15 rebuild.survivors-keep-their-relative-order-and-newcomers-come-after-them
+        assert(order_ok(w, n)) by {
+            reveal(order_ok); reveal(pairs_upto);
+            assert forall|a: int, b: int| #![trigger n[a], n[b]] 0 <= a < b < n.len() && n[a] is Some && n[b] is Some && ws_has(w, n[b]->Some_0)
+                implies exists|i: int, j: int| #[trigger] pair_at(w, i, j, n[a], n[b]) by {
+                let ub = n[b]->Some_0;
+                if b < nw1.len() {
+                    assert(n.take(nw1.len() as int)[a] == n[a] && n.take(nw1.len() as int)[b] == n[b]);
+                    let (i, j) = choose|i: int, j: int| j <= w.len() - 1 && #[trigger] pair_at(w, i, j, nw1[a], nw1[b]);
+                    assert(pair_at(w, i, j, n[a], n[b]));
+                } else {
+                    // a newcomer is not in the old set: otherwise the scan would have kept it
+                    assert(ws_has(n, ub));
+                    assert(want(in_working_set, t, ub));
+                    let i = choose|i: int| 0 <= i < w.len() && #[trigger] w[i] == Some(ub);
+                    assert(i >= 1);
+                    assert(kept_upto(in_working_set, w, t, w.len() - 1, ub));
+                    assert(ws_has(nw1, ub));
+                    let c = choose|c: int| 0 <= c < nw1.len() && #[trigger] nw1[c] == Some(ub);
+                    assert(n.take(nw1.len() as int)[c] == n[c]);
+                    assert(n[c] == n[b] && c < b);
+                    assert(false);
+                }
+            }
+        }
         reveal(phase12_post);
         assert(phase12_post(in_working_set, renumber, old_ws@, txn.st().tasks, new_ws@));
     }
